@@ -110,9 +110,13 @@ func (c *c02Oracle) Check(w *World, o *Obs) []Violation {
 		case s == nil || s.Kind != "sms":
 			out = append(out, viol("C02", "completed_with_bad_sms", st.Kind, o,
 				fmt.Sprintf("pending login of %s completed with a code the gateway never sent", uidPut), "why", "never_sent"))
-		case s.Number != row.SMSPhone || row.SMSPhone == "":
+		case s.Acct != a:
+			// the code was sent to a number that, when it was sent, was not
+			// this account's registered one (the account may have enrolled
+			// another number since: a code sent to the number registered at
+			// the time is this account's code)
 			out = append(out, viol("C02", "completed_with_bad_sms", st.Kind, o,
-				fmt.Sprintf("pending login of %s (registered number %q) completed with a code that was sent to %q", uidPut, row.SMSPhone, s.Number), "why", "other_number"))
+				fmt.Sprintf("pending login of %s (registered number now %q) completed with a code that was sent to %q, which was not its registered number then", uidPut, row.SMSPhone, s.Number), "why", "other_number"))
 		case !usable(code.Status):
 			out = append(out, viol("C02", "completed_with_bad_sms", st.Kind, o,
 				fmt.Sprintf("pending login of %s completed with an SMS code that is %s", uidPut, code.Status), "why", code.Status))
